@@ -25,6 +25,8 @@ from xonsh.procs.executables import (
     get_possible_names,
     is_executable_in_posix,
     is_executable_in_windows,
+    is_explicit_path,
+    locate_executable,
 )
 
 
@@ -326,6 +328,13 @@ class CommandsCache(cabc.Mapping):
         update the cache. It just says whether the value is known *now*. This
         may not reflect precisely what is on the $PATH.
         """
+        if is_explicit_path(key):
+            # a name with a separator refers to that path only, never to a
+            # command of the same basename found in $PATH
+            return (
+                key in self._cmds_cache
+                or locate_executable(key, self.env) is not None
+            )
         return self.cached_name(key) in self._cmds_cache
 
     def lazyiter(self):
